@@ -125,6 +125,9 @@ class Ctx:
         cmd = ["go", "build", "-modfile", modfile, "-tags", "verif", "-o", out]
         if race:
             cmd.insert(2, "-race")
+        elif os.environ.get("VERIF_COVERDIR"):
+            # development aid (bin/code-coverage): which statements of the library does this check execute at all
+            cmd[2:2] = ["-cover", "-coverpkg=zombiezen.com/go/commonmark,zombiezen.com/go/commonmark/format"]
         cmd.append("./cmd/vharness")
         p = subprocess.run(cmd, cwd=hdir, env=GOENV, capture_output=True, text=True)
         if p.returncode != 0:
@@ -141,6 +144,8 @@ class Ctx:
         e = dict(GOENV)
         e["VERIF_SEED"] = str(self.seed)
         e["VERIF_TIER"] = self.tier
+        if os.environ.get("VERIF_COVERDIR") and not race:
+            e["GOCOVERDIR"] = os.environ["VERIF_COVERDIR"]
         if env:
             e.update(env)
         try:
